@@ -85,6 +85,7 @@ func paramCmpEdge(prm *ssa.Parameter, val int64) EdgeFilter {
 func runC13(c *Ctx) {
 	p := c.P
 	s := p.Selectors()
+	s.checkSnapshotOrder(c, "snapshot-before-render")
 	scaleFn := s.apiMethod("ScaleProcess")
 	c.Touch(scaleFn)
 	spawnSite := CallOfFn("Spawn", s.Spawns...)
@@ -112,7 +113,7 @@ func runC13(c *Ctx) {
 				bad = in
 			}
 			if ret, ok := in.(*ssa.Return); ok {
-				if len(ret.Results) == 0 || IsNilConst(ret.Results[len(ret.Results)-1]) {
+				if len(ret.Results) == 0 || IsNilConst(RetVals(ret)[len(ret.Results)-1]) {
 					errOK = false
 				}
 			}
@@ -188,6 +189,9 @@ func runC13(c *Ctx) {
 		nameFld := p.Field("types", "ProcessState", "Name")
 		c.Check(p.Deep(StoreTo("state.Name", nameFld)).May(f), r2, "rename:state-name", FirstPos(p, f), "state name updated", "the rename function does not update the name in the state record")
 		s.checkRenameKeepsRecord(c, r2, f)
+		// the log moves with its content: nothing reached from the rename replaces or clears the buffer's lines
+		fBuf := p.Field("pclog", "ProcessLogBuffer", "buffer")
+		c.Check(!p.Deep(StoreTo("buffer", fBuf)).May(f), r2, "rename:log-content-kept", FirstPos(p, f), "the collected log survives the rename", "the rename reaches a store into the log buffer's line slice (for instance through Close of the buffer it re-registers): every surviving replica loses its collected log when a scale request changes the name width")
 		c.Check(p.Deep(StoreTo("conf.ReplicaName", s.FReplicaName)).May(f), r2, "rename:replica-name", FirstPos(p, f), "replica name updated", "the rename function does not update ReplicaName")
 	}
 	c.Check(nRen == 1, r2, "rename:function", "", "one rename function", fmt.Sprintf("%d rename functions found", nRen))
